@@ -63,8 +63,10 @@ func (n *Node) isLastOfHierarchy() bool {
 		return false
 	}
 
+	// compare the nodes themselves: indexes are only unique until the counter they
+	// are drawn from is reset (every From-Root operation resets the package-level one)
 	lastIdx := len(n.parent.children) - 1
-	return n.index == n.parent.children[lastIdx].index
+	return n == n.parent.children[lastIdx]
 }
 
 const (
